@@ -391,10 +391,45 @@ func campaignC16(p *Parser, req *Request, resp *Response) {
 		}
 		return true
 	}
+	// ... and a budget near the top of the counter's range with a Stats value
+	// that was used before: nowhere near exhausted, so identical to the reference
+	runCarryHuge := func(n, carry uint64) bool {
+		c := call
+		c.Opts.MaxExpr = n
+		c.Opts.StatsCarry = carry
+		r := p.Solo(&c, req.Pool, int64(ref+2)*C)
+		resp.Runs++
+		resp.stat("reused_stats_huge_budget_runs", 1)
+		bad := ""
+		switch {
+		case r.Aborted:
+			bad = "did not return within the reference's step bound"
+		case r.Escaped != R.Escaped:
+			bad = "panicked: " + r.Escaped
+		case r.Value != R.Value:
+			bad = "value " + r.Value + " instead of " + R.Value
+		default:
+			if ok, _ := sameStrings(errMsgs(r), refErrs); !ok {
+				bad = fmt.Sprintf("errors %q instead of %q", errMsgs(r), refErrs)
+			} else if ok, at := sameStrings(historyKeys(r), refHist); !ok {
+				bad = fmt.Sprintf("history differs at event %d", at)
+			}
+		}
+		if bad != "" {
+			viol(n, "unexhausted-differs", fmt.Sprintf("with a reused Stats value (ExprCnt already %d) and a budget that cannot be exhausted the parse %s", carry, bad), map[string]any{"stats_carry": carry})
+			resp.Violations[len(resp.Violations)-1].Carries = []uint64{carry}
+			return false
+		}
+		return true
+	}
 	if len(req.Carries) > 0 {
 		for i, carry := range req.Carries {
 			if i < len(req.Budgets) {
-				runCarry(req.Budgets[i], carry)
+				if req.Budgets[i] > 1<<62 {
+					runCarryHuge(req.Budgets[i], carry)
+				} else {
+					runCarry(req.Budgets[i], carry)
+				}
 			}
 		}
 	} else if countKnown && !refExhausted && N >= 4 && len(req.Budgets) == 0 {
@@ -404,6 +439,7 @@ func campaignC16(p *Parser, req *Request, resp *Response) {
 				break
 			}
 		}
+		runCarryHuge(math.MaxUint64-uint64(simrt.Choose(3)), 1+uint64(simrt.Choose(int(N)+40)))
 	}
 	if req.Full {
 		resp.Results = []*CallResult{R}
